@@ -15,7 +15,8 @@
 //! arithmetic panic (`subi` below zero)) embedded in the fixed script
 //!     progkit prelude (9) | ji 12 | SUB: log | jal $zero 0x13 (return) | movi 0x10 2 |
 //!     movi 0x11 5 | <body> | ret $one | rvrt $one
-//! with gas limit GAS_LIMIT (loops end by OutOfGas), x EVERY subset of the script
+//! with the unit gas schedule (`GasCosts::unit()`, every instruction 1 gas) and gas limit
+//! GAS_LIMIT = 48 (loops end by OutOfGas after < 49 instructions), x EVERY subset of the script
 //! breakpoint locations {last set-up instruction, each body instruction, the final
 //! `ret`, the subroutine entry} (2^(n+3) <= 64 quick / 128 thorough) x EVERY subset of
 //! the 3 instructions of contract A (8), plus single-stepping (without and with all
@@ -40,7 +41,10 @@
 //!      violation (classified: repeated for the same visit / state differs from the
 //!      state before the instruction / location never reached);
 //!  (3) visits of armed locations WITHOUT an event are a don't-care (statement: "at
-//!      most once"); they are counted and reported (`missed_visits`).
+//!      most once"); they are counted and reported (`missed_visits`; 0 on the unchanged
+//!      tree). `C32_STRICT=1` (opt-in, not the default verdict) turns them into violations.
+//!
+//! `C32_SHOW=4,14,9 c32` prints the uninterrupted trace of one program (letter indices).
 
 #[path = "../progkit.rs"]
 mod progkit;
